@@ -39,6 +39,8 @@ ASSUMPTIONS = ["the plotted position of an element on a categorical axis is the 
                "polygon)",
                "a CategoricalROI is a set of labels and is applied to the x attribute (documented assumption of the dispatcher); "
                "it is only generated with a categorical x axis",
+               "labels are compared by value: a label selects exactly the elements whose label equals it ('a' does not select 'ab', the "
+               "integer label 1 selects 1.0 and not 1.5), whatever the dtypes / widths of the region's and the data's label arrays",
                "categories are handed over as the component's numpy array (as the viewers do), never as a python list",
                "use_pretransform=True (non-rectilinear projections) is outside the statement and not generated"]
 ANCHORS = ["glue.core.subset:roi_to_subset_state", "glue.core.roi:CategoricalROI.from_range", "glue.core.roi:CategoricalROI.contains",
@@ -430,6 +432,7 @@ def run_instance(ctx, forced_kind=None):
                    mask_equals_roi_contains=agrees)
         if path != "numeric_numeric":
             sig["category_order"] = sorted(set(o for o in orders.values() if o != "numeric"))
+            sig["label_alphabet"] = alphabets
         if desc["k"] == "annulus":
             # the keyhole polygon of an annulus has a double edge ("seam") from (xc+ri, yc) to (xc+ro, yc)
             on_seam = (py == desc["yc"]) & (px >= desc["xc"] + desc["ri"] - add) & (px <= desc["xc"] + desc["ro"] + add)
